@@ -160,6 +160,15 @@ impl PlFold for Flattener {
 
                         (input, kind)
                     }
+                    kind @ TransformKind::Aggregate { .. } => {
+                        let input = self.fold_expr(*t.input)?;
+                        let kind = fold_transform_kind(self, kind)?;
+
+                        // the columns of the order in effect do not exist after an aggregation
+                        self.sort.clear();
+
+                        (input, kind)
+                    }
                     kind => (self.fold_expr(*t.input)?, fold_transform_kind(self, kind)?),
                 };
 
